@@ -10,6 +10,12 @@ NOTE = ("Trusted base: Go type checker, go/ssa and VTA/CHA of x/tools v0.29.0; s
 
 # id -> (technique, level text, undecided / note)
 CHECKS = {
+ "C01": ("identity-flow (provenance) of the password per link down to the KDF operands incl. the dependency's source; guarded-return rules; path-shape agreement of file names",
+         "Decides: the password reaches every KDF unchanged from every exported entry point; a true verdict exists only behind lookup ≠ nil, algorithm match and a whole-digest constant-time compare on the user's own record; getFilename/Exists/Remove/SetAdmin/fileExists agree on the two extensions of one stem; reported flags/times are the checked record's. The regressions named in why_tests_cant (truncation, prefix compare, stale file after remove/set-admin) each break a rule.",
+         "Not decided: the KDFs' numeric results, closure over histories, PBKDF2 key-equivalence classes."),
+ "C02": ("guarded-return rules on enumerated SSA paths of the record parser and predicates; compiler prove-pass residue (bounds checks) against a hand-discharged table; KDF panic preconditions read from the dependency's SSA",
+         "Decides: every parse failure leaves with an error and zero values, fields are taken from the right positions, supported/valid/true only behind the full guard chain, no unproven bounds check and no nil method call on the parse path, KDF panic preconditions excluded at construction (found and repaired: argon2id parameters), schema rules for unsupported hashes in List/ListFull/Exists/Remove, URL-safe base64 everywhere.",
+         "Not decided: 'never a hang', the verdict per byte string, strconv/base64 internals."),
  "C03": ("interprocedural path-sensitive guard analysis (SSA) + path-shape grammar + call-graph reachability",
          "Decides structural necessary conditions, not the behaviour: every Join(BaseDir,U) on a caller-supplied name is dominated, along all call paths from the exported API, by the grammar match; every FS primitive in package store takes a path of a confined shape; Check/List count only valid names; no FS/exec primitive reachable from request handlers by call edges. Holds for all CFG paths and call sites at once, which the input-sampling tests cannot give.",
          "Not decided: kernel path resolution (symlinks inside the base dir), NAME_MAX, the syscall-level view."),
@@ -37,12 +43,18 @@ CHECKS = {
  "C12": ("operand-identity and guarded-send rules on enumerated SSA paths; constructor mode-switch table; shared C11.3 rule",
          "Decides: upgradeable == (Default != record's parameter-set id); enqueue only under ok ∧ upgradeable ∧ queue configured, with the login's credentials; mode switch \"\"→nil / local→update queue / URL→remote upgrader; writes use hasher and id of the same Default and go through the ordinary (policy-checked) update; rewrite only for a password valid at rewrite time.",
          "Not decided: liveness of the rewrite, the remote master."),
+ "C14": ("writer/reader table agreement (string templates, positions, YAML tags), freshness/CSPRNG provenance of salts, operand identity of KDF parameters incl. the dependency's Hash construction, backward containment check for secrets",
+         "Decides: record line template and operands, hasher string order vs decoder order, schema identifiers, fresh random salts of the schema's sizes used by the KDF and written, KDF operands are the same-named configuration fields without conversion, YAML keys map to those fields, HMAC-SHA256 over scrypt(N=1<<cost,r,p,32) in the dependency, URL-safe base64, and that the password reaches files only through the KDF and never the HMAC key.",
+         "Not decided: digest equality with an independent implementation, salt uniqueness probability."),
  "C15": ("effect analysis over the whole-program call graph + who-may-call + cleanup pairing on enumerated paths (incl. deferred closures)",
          "Decides: read-only API and authentication-only frontends reach no FS-mutating primitive / store mutator; set-admin = stat+rename+dir-fsync; aux copy on every path; every failing exit after the creating open removes the reservation; no failing exit after the commit point (two inherent fsync-after-rename exits are listed as known findings).",
          "Not decided: byte-level directory equality at run time; which syscalls fail when."),
  "C17": ("must-pass-through guard rule on enumerated SSA paths, who-may-call funnel, guarded-return rules on the policy constructors, comparator table agreement",
          "Decides: every library write in the agent is dominated by s.policy.Check(password, username) ok ∧ err==nil on the very values written; the three writers have no other caller; policy construction errors are fatal before the dispatcher starts; accepting paths of the condition parser have all four validations; comparator functions and kind mapping are as documented.",
          "Not decided: zxcvbn's scoring; whether a given password meets a threshold."),
+ "C18": ("strict-decode ordering rule, guarded-return/per-iteration rules on the loader, KDF panic preconditions from dependency SSA, guarded-store and field-finality (who-may-write) rules for reload",
+         "Decides: KnownFields(true) before Decode and decode errors fatal; accepting paths of the loader have BaseDir≠\"\", per set ID≠0 ∧ exactly one algorithm ∧ constructor ok, default rules; accepted parameter sets cannot make the KDF panic (found and repaired); reload replaces s.dir only by a freshly loaded, checked Dir and a served Dir is never edited in place.",
+         "Not decided: exactness over all YAML documents, memory exhaustion, signal timing."),
  "C19": ("notify/success pairing on enumerated SSA paths; per-iteration transition-table check of the hooks loop; guard and shape rules for hook execution",
          "Decides: notify exactly on successful mutations; the pending-counter transition table of the rate limiter on every loop-iteration path (leading edge at 0, trailing edge iff pending>1, reset); eligibility guards before any exec; process shape (arg, env, start-not-wait, watchdog).",
          "Not decided: timing/intervals, real process behaviour, exec-time races."),
